@@ -59,7 +59,7 @@ def build_pdf(case):
     if xobjs:
         res[b"XObject"] = xobjs
     for name, f in forms.items():
-        d = W.D(Type=W.N("XObject"), Subtype=W.N("Form"), BBox=[-1000, -1000, 1000, 1000],
+        d = W.D(Type=W.N("XObject"), Subtype=W.N("Form"), BBox=list(FORM_BBOX0) if f.get("bbox0") else [-1000, -1000, 1000, 1000],
                 Matrix=[_nv(v) for v in f["matrix"]])
         if f.get("alt"):
             alt = dict(res)
@@ -88,15 +88,20 @@ PREPAGES = [b"/DeviceRGB cs 1 0 0 sc /DeviceCMYK CS 0 0 0 1 SC 3 w [2 1] 0 d 10 
             b"/Sep cs 0.5 scn /DN3 CS 0.1 0.2 0.3 SCN 1 J 2 j 10 10 m"]
 
 
+FORM_BBOX0 = (0, 0, 900, 700)
+
+
 def _nv(v):
     v = Fr(v)
     return v.numerator if v.denominator == 1 else W.Real(TM.fnum(v))
 
 
-def expected_shapes(case, inherit=True):
+def expected_shapes(case, inherit=True, figs=None):
     forms = {name: {"matrix": f["matrix"], "ops": f["ops"]} for name, f in case.get("forms", {}).items()}
     m = TM.Model({}, forms, inherit=inherit)
     items = m.run(case["prog"])
+    if figs is not None:
+        figs.extend(TM.figures(items))
     return [it[1] for it in TM.flatten(items, "shape")], m.flags
 
 
@@ -107,7 +112,8 @@ def _pt(p):
 def run_case(case):
     from pdfminer.layout import LTCurve, LTLine, LTRect
 
-    exp, flags = expected_shapes(case, True)
+    figs = []
+    exp, flags = expected_shapes(case, True, figs)
     classes = sorted("f:" + f for f in flags) + ["shapes:%s" % ("0" if not exp else "1-3" if len(exp) < 4 else "4+")]
     for e in exp:
         classes.append("cls:" + e["cls"])
@@ -129,6 +135,33 @@ def run_case(case):
         return Outcome(classes, nt, fail="interpreter raised %s: %s; %s" % (type(e).__name__, e, desc()))
     if len(got) != len(exp):
         return Outcome(classes, nt, fail="%d shapes, expected %d; %s" % (len(got), len(exp), desc()))
+    # ---- the figure of every form invocation: its box is the form's BBox under (form matrix x CTM at the Do).  Only
+    # asserted for forms whose BBox starts at the origin (for others LTFigure reads [x0 y0 x1 y1] as x y w h)
+    from pdfminer.layout import LTFigure
+
+    def lfigs(item, acc):
+        for c in item:
+            if isinstance(c, LTFigure):
+                acc.append(c)
+                lfigs(c, acc)
+        return acc
+
+    gfigs = lfigs(page, [])
+    if len(gfigs) != len(figs):
+        return Outcome(classes, nt, fail="%d figures, expected %d; %s" % (len(gfigs), len(figs), desc()))
+    for i, (g, f) in enumerate(zip(gfigs, figs)):
+        if not case["forms"][f[1]].get("bbox0"):
+            continue
+        m = f[3]
+        xs, ys = [], []
+        for (x, y) in ((FORM_BBOX0[0], FORM_BBOX0[1]), (FORM_BBOX0[2], FORM_BBOX0[1]), (FORM_BBOX0[0], FORM_BBOX0[3]), (FORM_BBOX0[2], FORM_BBOX0[3])):
+            xs.append(m[0] * x + m[2] * y + m[4])
+            ys.append(m[1] * x + m[3] * y + m[5])
+        ebox = (float(min(xs)), float(min(ys)), float(max(xs)), float(max(ys)))
+        if any(abs(a - b) > 1e-6 * max(1.0, abs(b)) for a, b in zip(g.bbox, ebox)):
+            return Outcome(classes + ["figure-box"], True, fail="figure %d (form %s): box %r, expected %r = BBox %r under %r; %s" % (
+                i, f[1], tuple(g.bbox), ebox, FORM_BBOX0, tuple(float(v) for v in m), desc()))
+        classes = classes + ["figure-box"]
     for i, (g, e) in enumerate(zip(got, exp)):
         gk = "line" if isinstance(g, LTLine) else "rect" if isinstance(g, LTRect) else "curve"
         if gk != e["cls"]:
@@ -348,7 +381,7 @@ def cases(draw):
         # /Resources falls back to the page's in ISO 32000-1 and to its caller's in pdfminer: the two coincide otherwise)
         callable_names = [(nm, nd) for nm, nd in names if forms[nm]["own"]] if alt else list(names)
         ops = draw(block(1, callable_names, need, alt))
-        forms[name] = {"matrix": draw(st.one_of(st.just(TM.I6), MAT)), "ops": ops, "own": own, "alt": alt}
+        forms[name] = {"matrix": draw(st.one_of(st.just(TM.I6), MAT)), "ops": ops, "own": own, "alt": alt, "bbox0": draw(st.booleans())}
         names.append((name, need))
     pre = draw(st.sampled_from([None, None, 0, 1, 2, 3]))
     return {"prog": draw(block(0, names, [1, 1])), "forms": forms, "prepage": pre}
